@@ -37,6 +37,7 @@ theorem encAs_fun : ∀ {t : Ty} {x y : Obj}, EncAs w cfg t x y → y = un w cfg
   | _, _, _, .clsTuple ht h => by rw [un, if_pos ht, encFT_fun h]
   | _, _, _, .tdG hg h => by rw [un, if_pos hg, encTD_fun h]
   | _, _, _, .tdB hg h => by rw [un, if_neg (by simp [hg]), encRtKV_fun h]
+  | _, _, _, .union h => by simp only [un]; exact encRt_fun h
 theorem encRt_fun : ∀ {x y : Obj}, EncRt w cfg x y → y = unAny w cfg x
   | _, _, .none => by simp [unAny]
   | _, _, .bool => by simp [unAny]
@@ -375,6 +376,16 @@ theorem enc_aux (hws : w.SupU cfg.gen) :
           | none => simp only [wtField, hty] at hh; simp only [EncField, unField, hty]; exact ihA p.2 (by omega) hh
           | some t' => simp only [wtField, hty] at hh; simp only [EncField, unField, hty]
                        exact ihU (sizeOf t') t' p.2 (by omega) (Nat.le_refl _) (hws.fieldsOK c f hf t' hty) hh
+        | _ => simp [wellTyped] at hwt
+      | union ucs hn =>
+        have hun : un w cfg (.union ucs hn) x = unAny w cfg x := by simp only [un]
+        rw [hun]
+        refine .union (hAny x hx ?_)
+        cases x with
+        | none => simp [wellTypedAny]
+        | inst c fs =>
+          simp only [wellTyped, Bool.and_eq_true] at hwt
+          rw [wellTypedAny]; exact hwt.2
         | _ => simp [wellTyped] at hwt
 
 theorem un_enc (hws : w.SupU cfg.gen) {t : Ty} {x : Obj} (hs : t.supU cfg.gen = true) (h : wellTyped w t x = true) :
